@@ -3,7 +3,7 @@ from __future__ import annotations
 import contextlib, io, json, os, shutil, subprocess, sys, tempfile, time
 from pathlib import Path
 
-sys.path.insert(0, "/repo")
+sys.path.insert(0, os.environ.get("OPC_REPO", "/repo"))
 PY = "/venv/bin/python"
 
 
